@@ -148,6 +148,8 @@ func main() {
 			os.Exit(2)
 		}
 		os.Exit(vary(p, os.Args[3], os.Args[4:]))
+	case "storm":
+		os.Exit(props.StormMain(os.Args[2]))
 	case "worker":
 		if len(os.Args) < 8 {
 			os.Exit(2)
